@@ -775,3 +775,29 @@ impl<Item, Err, O: Observer<Item, Err>> Observer<Item, Err> for RingLast<O, Item
   }
   fn is_finished(&self) -> bool { self.observer.is_finished() }
 }
+
+// ---------------------------------------------------------------- C05.F3
+pub struct SplitDecision<O> { state: MutArc<Option<(O, usize, Vec<usize>)>> }
+impl<Err, O: Observer<usize, Err>> Observer<usize, Err> for SplitDecision<O> {
+  fn next(&mut self, value: usize) {
+    // decide under one lock acquisition ...
+    let free = self.state.rc_deref().as_ref().map_or(false, |s| s.1 == 0);
+    // ... act under another one
+    if !free {
+      if let Some(s) = self.state.rc_deref_mut().as_mut() {
+        s.2.push(value);
+      }
+    }
+  }
+  fn error(self, err: Err) {
+    if let Some(s) = self.state.rc_deref_mut().take() {
+      s.0.error(err)
+    }
+  }
+  fn complete(self) {
+    if let Some(s) = self.state.rc_deref_mut().take() {
+      s.0.complete()
+    }
+  }
+  fn is_finished(&self) -> bool { self.state.rc_deref().as_ref().map_or(true, |s| s.0.is_finished()) }
+}
